@@ -97,6 +97,12 @@ def check_props(ctx):
     if tested & length_types and not px_excluded:
       ctx.check("has_px" in c.methods, "TAB-has-px", f"{SP}:{c.name}|overrides has_px", ctx.where(m, c.node), f"value contains lengths ({sorted(tested & length_types)})",
                 f"{c.name} values contain lengths but the class does not override has_px: tts:extent on <tt> is not written when only this property uses px")
+      hp = c.methods.get("has_px")
+      if hp is not None:
+        looks = any(isinstance(n_, ast.Attribute) and n_.attr == "px" and unparse(n_.value).endswith("Units") for n_ in own_nodes(hp.node)) or \
+          any(isinstance(n_, ast.Call) and isinstance(n_.func, ast.Attribute) and n_.func.attr == "has_px" for n_ in own_nodes(hp.node))
+        ctx.check(looks, "TAB-has-px", f"{SP}:{c.name}.has_px|compares units with px", ctx.where(m, hp.node), "tests `<length>.units == Units.px` (or delegates to another has_px)",
+                  f"{c.name}.has_px never looks at the units of the value: px lengths of this property are not reported")
     # special values
     special = set()
     if v is not None:
